@@ -118,7 +118,7 @@ pub fn program_text(forms: &[Form]) -> String {
 pub fn obs_text(obs: &Obs) -> String {
     let mut s = obs.iter().map(|(o, t)| format!("{} {:?}", o.show(), t)).collect::<Vec<_>>().join(" | ");
     if s.len() > 700 {
-        s.truncate(700);
+        crate::sut::truncate_chars(&mut s, 700);
         s.push('…');
     }
     s
